@@ -50,6 +50,10 @@ def run_case(case):
             allq = [q[0] for q in queries]
             sub = sorted(rnd.sample(allq, max(1, len(allq) // 2)))
             same(run_variant(refs, [q for q in queries if q[0] in sub], mode), set(sub), 'record_unchanged_when_other_queries_are_removed')
+            # a query ALONE in the file: chimeric ones first (their second pass lands on a reference that, in the full run, other molecules hit too)
+            lone = [q[0] for q in queries if truths[q[0]]['kind'] == 'chimeric'][:2] or [allq[0]]
+            for qid in lone:
+                same(run_variant(refs, [q for q in queries if q[0] == qid], mode), {qid}, 'record_unchanged_when_the_query_is_alone_in_the_file')
             shuffled = list(queries)
             rnd.shuffle(shuffled)
             same(run_variant(refs, shuffled, mode), set(allq), 'record_unchanged_when_queries_are_reordered')
@@ -82,7 +86,7 @@ def bounded(repo, tier, seed):
             key = f"{RUN}::monitor::C10::{clause}"
             viol.setdefault(key, dict(key=key, blame=RUN, input=dict(seed=case[0], mode=case[1]), observed=detail, required='C10 statement'))
     return result(tot, tot, "generated CMAP sets (2-3 references, 6-10 queries); the per-query records (all files of the mode) of a run on the full files are compared "
-                            "with runs on (a) a random half of the queries, (b) shuffled query order, (c) shuffled rows inside both CMAP files, (d) permuted reference "
+                            "with runs on (a) a random half of the queries and one or two (chimeric) queries alone, (b) shuffled query order, (c) shuffled rows inside both CMAP files, (d) permuted reference "
                             "order, (e) -qId/-rId selection versus physically restricted files; evaluations = query x variant comparisons",
                   [dict(seed=cases[0][0], mode=cases[0][1])], list(viol.values())[:5], exhaustive=False, bounds=f"{n} sets x 5 variants")
 
